@@ -1,6 +1,7 @@
 package num
 
 import (
+	"encoding/json"
 	"errors"
 	"fmt"
 	"math"
@@ -378,6 +379,11 @@ func (a *Amount) UnmarshalJSON(value []byte) error {
 func unquote(value []byte) []byte {
 	// If the amount is quoted, strip the quotes
 	if len(value) > 2 && value[0] == '"' && value[len(value)-1] == '"' {
+		// JSON string escapes (e.g. "1\u0030.00") must be decoded, not just unwrapped
+		var s string
+		if strings.IndexByte(string(value), '\\') >= 0 && json.Unmarshal(value, &s) == nil {
+			return []byte(s)
+		}
 		value = value[1 : len(value)-1]
 	}
 	return value
